@@ -17,6 +17,8 @@ import (
 	"errors"
 	"fmt"
 	"math/rand"
+	"os"
+	"strconv"
 	"strings"
 
 	"github.com/dolthub/go-mysql-server/sql"
@@ -106,6 +108,12 @@ func main() {
 	r.Assume("a handshake response that announces another plugin is answered by an auth switch; after the switch the credentials are judged like any other")
 	nCases := r.N(120, 2500)
 	attempts := r.N(20, 40)
+	if one := os.Getenv("VERIF_C40_CASE"); one != "" {
+		// replay of a single case (debugging aid): VERIF_C40_CASE=<index> with the same tier and seed
+		k, _ := strconv.Atoi(one)
+		runCase(r, k, attempts)
+		r.Finish()
+	}
 	r.Parallel("accounts", nCases, func(i int) { runCase(r, i, attempts) })
 	pinned(r)
 	r.Floor(r.Counter("login.accept") > 50 && r.Counter("login.reject") > 200, "fewer than 50 accepted or 200 rejected driver logins")
@@ -264,7 +272,7 @@ func runCase(r *core.Run, i int, attempts int) {
 			setLocked(a, true)
 		}
 	}
-	srv, err := f.E.StartServer()
+	srv, err := g11lib.StartExclusiveServer(f.E)
 	if err != nil {
 		r.Inconclusive("server did not start")
 		return
@@ -296,7 +304,8 @@ func runCase(r *core.Run, i int, attempts int) {
 				a := live[rnd.Intn(len(live))]
 				switch rnd.Intn(4) {
 				case 0:
-					np := pwPool[1+rnd.Intn(len(pwPool)-1)] + "-new"
+					// stays distinct from the passwords of the user's other accounts
+					np := fmt.Sprintf("%s-new%d", pwPool[1+rnd.Intn(len(pwPool)-1)], n)
 					if root(fmt.Sprintf("ALTER USER '%s'@'%s' IDENTIFIED BY '%s'", a.user, a.host, np)) {
 						a.pw, a.plugin = np, "mysql_native_password"
 					}
@@ -421,8 +430,24 @@ func runCase(r *core.Run, i int, attempts int) {
 			err := db.QueryRow("SELECT CURRENT_USER()").Scan(&cu)
 			r.Eval(1)
 			wantCU := m.user + "@" + m.host
+			usedOther := false
 			if err != nil || cu != wantCU {
-				r.Violation("current-user-is-not-the-matched-account", wit(attempt, wantCU, fmt.Sprintf("%s (err %v)", cu, err), nil))
+				sig := "current-user-is-not-the-matched-account"
+				for _, o := range w.others(user, m) {
+					if cu == o.user+"@"+o.host && verdict(o, pass) == "accept" {
+						// the same password is valid for another matching account of this name, and the engine used that one
+						usedOther = true
+						sig = "less-specific-host-account-chosen"
+						if strings.Contains(m.host, "_") {
+							sig = "underscore-host-wildcard-not-matched"
+						}
+					}
+				}
+				r.Violation(sig, wit(attempt, wantCU, fmt.Sprintf("%s (err %v)", cu, err), nil))
+			}
+			if usedOther {
+				db.Close()
+				continue // the marker tables would only repeat the same observation
 			}
 			for _, a := range w.accts {
 				if a.dropped || a.user != m.user {
